@@ -606,8 +606,10 @@ class Inliner:
             if loc not in ren:
                 ren[loc] = self.fresh(fn.name + '_' + loc)
         body = [s for s in copy.deepcopy(fn.body) if not _is_docstring(s)]
-        body = single_exit(body, result_var)
+        # rename the helper's locals BEFORE the result is bound to the caller's variable: the caller's variable may
+        # have the same name as a local of the helper (`protocol = await self._helper()`)
         body = [_Subst(ren).visit(s) for s in body]
+        body = single_exit(body, result_var)
         body = [s for s in body if not isinstance(s, ast.Pass)]
         return pre + self.inline_body(body, depth + 1)
 
